@@ -306,7 +306,7 @@ func init() {
 				}
 				return c18MergeFiles(r, idx, docs)
 			}
-			if idx%128 == 5 {
+			if idx%128 == 5 && idx < 1024 {
 				return c18BigReader(r, idx)
 			}
 			if idx%8 == 3 {
